@@ -25,7 +25,7 @@ var repoDir = "/repo"
 
 func loadEnv() []string {
 	env := os.Environ()
-	env = append(env, "GOFLAGS=-mod=mod", "GOPROXY=off", "GOSUMDB=off", "GOTOOLCHAIN=local", "GOWORK=off")
+	env = append(env, "GOFLAGS=-mod=mod -trimpath", "GOPROXY=off", "GOSUMDB=off", "GOTOOLCHAIN=local", "GOWORK=off")
 	if t := os.Getenv("VERIF_GOOS_GOARCH"); t != "" {
 		p := strings.SplitN(t, "/", 2)
 		env = append(env, "GOOS="+p[0], "GOARCH="+p[1])
@@ -40,6 +40,9 @@ func fatalf(format string, a ...interface{}) {
 
 func loadPkgs(mode packages.LoadMode, tests bool, patterns ...string) []*packages.Package {
 	cfg := &packages.Config{Mode: mode, Dir: repoDir, Env: loadEnv(), Tests: tests}
+	if len(patterns) == 1 && patterns[0] == "./pub" && os.Getenv("VERIF_NO_INLINE") == "" {
+		cfg.Overlay = pubOverlay()
+	}
 	if tags := os.Getenv("VERIF_TAGS"); tags != "" {
 		cfg.BuildFlags = []string{"-tags=" + tags}
 	}
@@ -62,6 +65,19 @@ func loadPkgs(mode packages.LoadMode, tests bool, patterns ...string) []*package
 	}
 	sort.Slice(pkgs, func(i, j int) bool { return pkgs[i].PkgPath < pkgs[j].PkgPath })
 	return pkgs
+}
+
+var pubOverlayDone bool
+var pubOverlayMap map[string][]byte
+
+// pubOverlay: the source overlay in which newly extracted helpers of package
+// pub are expanded at their call sites (inline.go); nil when there are none.
+func pubOverlay() map[string][]byte {
+	if !pubOverlayDone {
+		pubOverlayDone = true
+		pubOverlayMap = inlineOverlay("pub", knownPubFuncs)
+	}
+	return pubOverlayMap
 }
 
 // relPos renders a position relative to the repository root.
@@ -109,6 +125,9 @@ func loadPub() *Pub {
 		if f == nil || seen[f] || f.Blocks == nil || f.Synthetic != "" {
 			return
 		}
+		if f.Parent() == nil && expandedAway[fname(f)] {
+			return // analysed inside its callers (inline.go)
+		}
 		seen[f] = true
 		p.Funcs = append(p.Funcs, f)
 		for _, a := range f.AnonFuncs {
@@ -153,16 +172,23 @@ func fname(f *ssa.Function) string {
 		}
 		return fmt.Sprintf("%s$%d", fname(f.Parent()), idx)
 	}
+	name := f.Name()
 	if recv := f.Signature.Recv(); recv != nil {
 		t := recv.Type()
 		if p, ok := t.(*types.Pointer); ok {
 			t = p.Elem()
 		}
 		if n, ok := t.(*types.Named); ok {
-			return n.Obj().Name() + "." + f.Name()
+			name = n.Obj().Name() + "." + f.Name()
 		}
 	}
-	return f.Name()
+	// a new function that took over the body of a closure is known by the closure's name
+	for role, target := range closureAlias {
+		if target == name {
+			return role
+		}
+	}
+	return name
 }
 
 // Func looks a function up by the name fname would give it; fatal if absent
@@ -173,7 +199,44 @@ func (p *Pub) Func(name string) *ssa.Function {
 			return f
 		}
 	}
+	// A rule anchored on the per-element closure X$N of X: when X no longer has
+	// that closure (its body was written into X's loop directly, or moved to a
+	// new method that the expansion pre-pass put back into X), the body is part
+	// of X and the rule is applied to X.
+	if a := closureAlias[name]; a != "" {
+		if f := p.Func(a); f != nil {
+			if !bodyFallbackNoted[name] {
+				bodyFallbackNoted[name] = true
+				fmt.Printf("NOTE: %s not found; the new function %s takes its role\n", name, a)
+			}
+			return f
+		}
+	}
+	if i := strings.LastIndex(name, "$"); i > 0 {
+		if parent := p.Func(name[:i]); parent != nil {
+			if !bodyFallbackNoted[name] {
+				bodyFallbackNoted[name] = true
+				fmt.Printf("NOTE: %s not found; its rules are applied to %s\n", name, name[:i])
+			}
+			return parent
+		}
+	}
 	return nil
+}
+
+var bodyFallbackNoted = map[string]bool{}
+
+// HasFunc: exact lookup, no fallback.
+func (p *Pub) HasFunc(name string) bool {
+	if closureAlias[name] != "" {
+		return true
+	}
+	for _, f := range p.Funcs {
+		if fname(f) == name {
+			return true
+		}
+	}
+	return false
 }
 
 func (p *Pub) MustFunc(res *Result, rule, name string) *ssa.Function {
